@@ -267,5 +267,169 @@ impl VacancyMapSlice<'_> {
 //@ end
 }
 
+// ---------------- vacancy_tracker.rs ----------------
+//@ extract item packages/infinity_pool/src/opaque/vacancy_tracker.rs struct VacancyTracker
+//@ end
+
+impl VacancyTracker {
+    /// Abstract view: has(i) is true iff slab i is recorded as having a vacancy; n() = number of slabs tracked.
+    pub closed spec fn has(&self, i: int) -> bool { self.has_vacancy.at(i) }
+    pub closed spec fn n(&self) -> int { self.has_vacancy.spec_len() }
+    pub closed spec fn cache_ok(&self) -> bool {
+        match self.next_vacancy {
+            Some(k) => 0 <= k < self.n() && self.has(k as int) && forall|j: int| 0 <= j < k ==> !#[trigger] self.has(j),
+            None => forall|j: int| 0 <= j < self.n() ==> !#[trigger] self.has(j),
+        }
+    }
+    pub closed spec fn twf(&self) -> bool {
+        &&& self.has_vacancy.wf()
+        &&& self.has_vacancy.stale(true)
+        &&& self.cache_ok()
+    }
+
+//@ extract fn packages/infinity_pool/src/opaque/vacancy_tracker.rs VacancyTracker::new
+//@ ret r
+//@ spec
+    ensures r.twf(), r.n() == 0,
+//@ end
+
+//@ extract fn packages/infinity_pool/src/opaque/vacancy_tracker.rs VacancyTracker::next_vacancy
+//@ ret r
+//@ spec
+    requires self.twf(),
+    ensures
+        // the cached answer is the least slab index recorded as having a vacancy
+        match r {
+            Some(k) => 0 <= k < self.n() && self.has(k as int) && forall|j: int| 0 <= j < k ==> !#[trigger] self.has(j),
+            None => forall|j: int| 0 <= j < self.n() ==> !#[trigger] self.has(j),
+        },
+//@ end
+
+//@ extract fn packages/infinity_pool/src/opaque/vacancy_tracker.rs VacancyTracker::update_slab_count
+//@ spec
+    requires
+        old(self).twf(),
+        count != old(self).n(),
+        // only slabs recorded as having a vacancy (in fact: empty slabs) may be truncated away
+        forall|i: int| count <= i < old(self).n() ==> #[trigger] old(self).has(i),
+    ensures
+        final(self).twf(),
+        final(self).n() == count,
+        forall|i: int| 0 <= i < count && i < old(self).n() ==> #[trigger] final(self).has(i) == old(self).has(i),
+        forall|i: int| old(self).n() <= i < count ==> #[trigger] final(self).has(i),
+//@ before "self.has_vacancy.resize(count, true);"
+        proof {
+            assert forall|i: int| count <= i < self.has_vacancy.spec_len() implies #[trigger] self.has_vacancy.at(i) == true by { assert(self.has(i)); }
+        }
+//@ after "self.has_vacancy.resize(count, true);"
+        proof {
+            assert forall|i: int| 0 <= i < count && i < old(self).n() implies #[trigger] self.has(i) == old(self).has(i) by { }
+            assert forall|i: int| old(self).n() <= i < count implies #[trigger] self.has(i) by { }
+        }
+//@ after "if count > previous_count {"
+        proof {
+            match old(self).next_vacancy {
+                Some(k) => {
+                    assert(old(self).has(k as int));
+                    assert(forall|j: int| 0 <= j < k ==> !#[trigger] old(self).has(j));
+                    if k < count {
+                        assert(self.has(k as int) == old(self).has(k as int));
+                        assert forall|j: int| 0 <= j < k implies !#[trigger] self.has(j) by { assert(self.has(j) == old(self).has(j)); }
+                    } else {
+                        assert forall|j: int| 0 <= j < count implies !#[trigger] self.has(j) by { assert(self.has(j) == old(self).has(j)); }
+                    }
+                }
+                None => {
+                    assert(forall|j: int| 0 <= j < old(self).n() ==> !#[trigger] old(self).has(j));
+                    if count > previous_count {
+                        assert(self.has(previous_count as int));
+                        assert forall|j: int| 0 <= j < previous_count implies !#[trigger] self.has(j) by { assert(self.has(j) == old(self).has(j)); }
+                    } else {
+                        assert forall|j: int| 0 <= j < count implies !#[trigger] self.has(j) by { assert(self.has(j) == old(self).has(j)); }
+                    }
+                }
+            }
+            assert(self.cache_ok());
+        }
+//@ end
+
+//@ extract fn packages/infinity_pool/src/opaque/vacancy_tracker.rs VacancyTracker::update_slab_status
+//@ rewrite-re "if let Some\(next_vacancy\) = self\.next_vacancy\s*&& slab_index == next_vacancy\s*\{" "if self.next_vacancy.is_some() && slab_index == self.next_vacancy.unwrap() {"
+//@ spec
+    requires
+        old(self).twf(),
+        slab_index < old(self).n(),
+        old(self).has(slab_index as int) != has_vacancy,
+    ensures
+        final(self).twf(),
+        final(self).n() == old(self).n(),
+        forall|i: int| 0 <= i < old(self).n() ==> #[trigger] final(self).has(i) == (if i == slab_index { has_vacancy } else { old(self).has(i) }),
+//@ rewrite-re "remaining_bits\.first_one\(\)\.map\(\|index_in_remaining\| \{\s*remaining_range_start\.wrapping_add\(index_in_remaining\)\s*\}\);" "match remaining_bits.first_one() { Some(index_in_remaining) => Some(remaining_range_start.wrapping_add(index_in_remaining)), None => None };"
+//@ after "let slab_previously_had_vacancy ="
+        proof {
+            assert(self.has_vacancy.stale(true));
+            assert forall|i: int| 0 <= i < old(self).n() implies #[trigger] self.has(i) == (if i == slab_index { has_vacancy } else { old(self).has(i) }) by { }
+            match old(self).next_vacancy {
+                Some(k) => { assert(old(self).has(k as int)); assert(forall|j: int| 0 <= j < k ==> !#[trigger] old(self).has(j)); }
+                None => { assert(forall|j: int| 0 <= j < old(self).n() ==> !#[trigger] old(self).has(j)); }
+            }
+        }
+//@ before "self.next_vacancy = None;"
+                    proof {
+                        assert(remaining_range_start as int > self.n());
+                    }
+//@ after "self.next_vacancy = remaining_bits.first_one()"
+                proof {
+                    match self.next_vacancy {
+                        Some(p) => {
+                            let k = (p - remaining_range_start) as int;
+                            assert(remaining_bits.sat(k));
+                            assert(self.has(p as int));
+                            assert forall|j: int| 0 <= j < p implies !#[trigger] self.has(j) by {
+                                if j > slab_index { assert(!remaining_bits.sat(j - remaining_range_start)); }
+                                else if j < slab_index { assert(!old(self).has(j)); }
+                            }
+                        }
+                        None => {
+                            assert forall|j: int| 0 <= j < self.n() implies !#[trigger] self.has(j) by {
+                                if j > slab_index { assert(!remaining_bits.sat(j - remaining_range_start)); }
+                                else if j < slab_index { assert(!old(self).has(j)); }
+                            }
+                        }
+                    }
+                    assert(self.cache_ok());
+                }
+//@ after "if has_vacancy {"
+        proof {
+            if has_vacancy {
+                match old(self).next_vacancy {
+                    Some(nv) => {
+                        if slab_index < nv {
+                            assert forall|j: int| 0 <= j < slab_index implies !#[trigger] self.has(j) by { assert(!old(self).has(j)); }
+                        } else {
+                            assert(self.has(nv as int) == old(self).has(nv as int));
+                            assert forall|j: int| 0 <= j < nv implies !#[trigger] self.has(j) by { assert(!old(self).has(j)); }
+                        }
+                    }
+                    None => {
+                        assert forall|j: int| 0 <= j < slab_index implies !#[trigger] self.has(j) by { assert(!old(self).has(j)); }
+                    }
+                }
+            } else {
+                match old(self).next_vacancy {
+                    Some(nv) => {
+                        if slab_index != nv {
+                            assert(self.has(nv as int) == old(self).has(nv as int));
+                            assert forall|j: int| 0 <= j < nv implies !#[trigger] self.has(j) by { assert(!old(self).has(j)); }
+                        }
+                    }
+                    None => { assert(old(self).has(slab_index as int)); }
+                }
+            }
+            assert(self.cache_ok());
+        }
+//@ end
+}
+
 } // verus!
 fn main() {}
